@@ -489,7 +489,10 @@ def _parse_string_literal(literal: str) -> _expression.String:
                 if s not in "0123456789abcdef":
                     raise DSDLSyntaxError("Invalid hex character: %r" % s)
                 h += s
-            return chr(int(h, 16))
+            code_point = int(h, 16)
+            if code_point > 0x10FFFF or 0xD800 <= code_point <= 0xDFFF:  # Not a Unicode scalar value.
+                raise DSDLSyntaxError("Invalid Unicode code point: %r" % h)
+            return chr(code_point)
 
         try:
             return {
